@@ -112,18 +112,20 @@ CleandocFixedPoint(d) ==
 
 \* ---- struct mode: summary, then fields ---------------------------------------------------------------------------
 \* description shapes: one line; + an indented line; + a blank line and an indented line; + an indented line starting with a role
-Shapes == CASE Variety = "full" -> {"one", "two", "blank", "role"} [] Variety = "thin" -> {"one", "two", "role"} [] OTHER -> {"blank"}
+\* varieties: "full" everything; "thin" no blank-line shape; "slim" one shape (an indented line), no signature defaults, but every way
+\* of writing a type x parent annotation (for three fields); "mini" the blank-line shape, nothing taken from the parent
+Shapes == CASE Variety = "full" -> {"one", "two", "blank", "role"} [] Variety = "thin" -> {"one", "two", "role"} [] Variety = "slim" -> {"two"} [] OTHER -> {"blank"}
 \* parameter: how its type is written: "inline" `:param int x:`, "field" a `:type x:` line after it, "before" a `:type x:` line
 \* before it, "none" (then the signature may supply it)
 SA == IF Variety = "mini" THEN {FALSE} ELSE BOOLEAN
 ParamSpecs == {[name |-> n, ty |-> t, sann |-> sa, sdef |-> sd, shape |-> sh] :
-                 n \in Names, t \in {"inline", "field", "before", "none"}, sa \in SA, sd \in SA, sh \in Shapes}
+                 n \in Names, t \in {"inline", "field", "before", "none"}, sa \in SA, sd \in (IF Variety = "slim" THEN {FALSE} ELSE SA), sh \in Shapes}
 AttrSpecs == {[name |-> n, ty |-> t, sann |-> sa, sdef |-> FALSE, shape |-> sh] : n \in Names, t \in {"field", "before", "none"}, sa \in SA, sh \in Shapes}
 RaiseSpecs == {[name |-> n, ty |-> "inline", sann |-> FALSE, sdef |-> FALSE, shape |-> sh] : n \in Names, sh \in Shapes}
 RetSpecs == {[name |-> "-", ty |-> t, sann |-> sa, sdef |-> FALSE, shape |-> sh] : t \in {"field", "before", "none"}, sa \in SA, sh \in Shapes}
 FieldSpecs == {[kind |-> "parameters", it |-> p] : p \in ParamSpecs} \cup {[kind |-> "attributes", it |-> a] : a \in AttrSpecs}
                 \cup {[kind |-> "raises", it |-> r] : r \in RaiseSpecs} \cup {[kind |-> "returns", it |-> r] : r \in RetSpecs}
-Structs == UNION {[1..n -> FieldSpecs] : n \in 1..MaxSecs}
+\* the structures are enumerated field by field in InitStruct (a set of all sequences would exceed TLC's set-size limit)
 StructOK(st) ==
   /\ \A i, j \in 1..Len(st) : (i # j /\ st[i].kind = st[j].kind /\ st[i].kind \in {"parameters", "attributes"}) => st[i].it.name # st[j].it.name
   /\ Cardinality({j \in 1..Len(st) : st[j].kind = "returns"}) <= 1
@@ -214,11 +216,18 @@ SeqLines ==
 InitSeq ==
   /\ SeqLines
   /\ sig = [j \in 1..Len(lines) |-> NoSig] /\ expect = <<>> /\ pcand = Parents
+StructFrom(st, layout) ==
+  /\ StructOK(st) /\ LayoutOK(st, layout)
+  /\ LET r == RenderLines(st, layout) IN lines = r.lines /\ sig = r.sig /\ expect = r.expect
+  /\ pcand = {"function"}
 InitStruct ==
-  \E st \in Structs, layout \in {"adjacent", "types-last", "types-first"} :
-                      /\ StructOK(st) /\ LayoutOK(st, layout)
-                      /\ LET r == RenderLines(st, layout) IN lines = r.lines /\ sig = r.sig /\ expect = r.expect
-                      /\ pcand = {"function"}
+  \E n \in 1..MaxSecs, layout \in {"adjacent", "types-last", "types-first"} : \E f1 \in FieldSpecs :
+    IF n = 1 THEN StructFrom(<<f1>>, layout)
+    ELSE \E f2 \in FieldSpecs :
+      IF n = 2 THEN StructFrom(<<f1, f2>>, layout)
+      ELSE \E f3 \in FieldSpecs :
+        IF n = 3 THEN StructFrom(<<f1, f2, f3>>, layout)
+        ELSE \E f4 \in FieldSpecs : n = 4 /\ StructFrom(<<f1, f2, f3, f4>>, layout)
 Init ==
   /\ IF Mode = "seq" THEN InitSeq ELSE InitStruct
   /\ pc = "main" /\ offset = 0 /\ desc = <<>> /\ params = <<>> /\ ptypes = <<>> /\ attrs = <<>> /\ atypes = <<>> /\ excs = <<>>
